@@ -86,8 +86,8 @@ def check(run, cases=None):
             for sc in (2.0 ** -40, 2.0 ** 40):
                 e.information = B.info(c['W']).astype(float) * sc
                 got = e.calc_chi2()
-                if abs(got - sc * exp) > tolc * sc:
-                    run.violation(dict(fam=c['fam'], k=c['k'], check='chi2-linear-in-omega'), 'chi2 with information scaled by %g is %r, expected %r | case %r' % (sc, float(got), sc * exp, c), dict(case=c, scale=sc))
+                if abs(got - sc * float(chi2)) > tolc * sc:          # (reference: the value at scale 1, which was just compared with the exact one)
+                    run.violation(dict(fam=c['fam'], k=c['k'], check='chi2-linear-in-omega'), 'chi2 with information scaled by %g is %r, expected %r | case %r' % (sc, float(got), sc * float(chi2), c), dict(case=c, scale=sc))
                     break
             e.information = B.info(c['W'])
         if c['psd'] and chi2 < -tolc:
